@@ -1656,7 +1656,7 @@ func stFor(st sysState, idx int) sysState {
 		out.MAC[len(out.MAC)-1] ^= byte(idx + 1)
 	}
 	out.Addrs = append(append([]system.IP(nil), st.Addrs...), system.IP{
-		Address:      netip.MustParsePrefix(fmt.Sprintf("2001:db8:a:ff%02x::1/64", idx)),
+		Address:      netip.MustParsePrefix(fmt.Sprintf("2001:db8:a%s:ff%02x::1/64", map[bool]string{false: "", true: fmt.Sprintf("%02x", idx>>8)}[idx > 255], idx&0xff)),
 		ValidForever: idx%2 == 0,
 	})
 	return out
